@@ -169,3 +169,139 @@ theorem einsum_wf (letters : List Char) (sz : Char → Nat) (ops : List (List Ch
 
 end einsumwf
 end NiftyVerif
+
+namespace NiftyVerif
+open Coo LinOps
+
+section comp
+variable {K : Type} [CommRing K]
+
+/-- **applying a composition is applying one after the other** -/
+theorem apply_comp (M N : Coo K) (hM : M.wf = true) (hN : N.wf = true) (hdim : N.rows = M.cols)
+    (x : Nat → K) (r : Nat) : apply (comp M N) x r = apply M (apply N x) r := by
+  rw [apply_eq_dense (comp M N) (comp_wf M N hM hN) x r, apply_eq_dense M hM (apply N x) r]
+  have h1 : ∀ c, dense (comp M N) r c * x c = sumN M.cols fun k => dense M r k * (dense N k c * x c) := by
+    intro c
+    rw [coo_comp M N hN hdim r c]
+    unfold sumN
+    rw [← sumL_map_mul_right]
+    apply sumL_map_congr; intro k _; ring
+  have hcols : (comp M N).cols = N.cols := rfl
+  rw [hcols]
+  rw [sumN_congr N.cols _ _ (fun c _ => h1 c), sumN_comm]
+  apply sumN_congr; intro k _
+  rw [apply_eq_dense N hN x k, ← sumN_mul_left]
+
+end comp
+end NiftyVerif
+
+namespace NiftyVerif
+open Coo LinOps
+
+section along
+variable {K : Type} [CommRing K]
+
+/-- `apply` only reads the input on `[0, cols)` -/
+theorem apply_congr_wf (M : Coo K) (hM : M.wf = true) (x y : Nat → K) (h : ∀ c, c < M.cols → x c = y c) (r : Nat) :
+    apply M x r = apply M y r := by
+  have hw := (wf_iff M).mp hM
+  unfold apply applyE
+  apply sumL_map_congr; intro e he
+  rw [h e.2.1 (hw e he).2]
+
+theorem prodL_split (l : List Nat) (d : Nat) (hd : d < l.length) :
+    prodL (l.take d) * l.getD d 0 * prodL (l.drop (d + 1)) = prodL l := by
+  induction l generalizing d with
+  | nil => simp at hd
+  | cons a l ih =>
+    cases d with
+    | zero => simp [prodL]
+    | succ d =>
+      have := ih d (by simpa using hd)
+      simp only [List.take_succ_cons, List.drop_succ_cons, prodL, List.getD_cons_succ]
+      rw [← this]; ring
+
+theorem prodL_set (l : List Nat) (d v : Nat) (hd : d < l.length) :
+    prodL (l.set d v) = prodL (l.take d) * v * prodL (l.drop (d + 1)) := by
+  induction l generalizing d with
+  | nil => simp at hd
+  | cons a l ih =>
+    cases d with
+    | zero => simp [prodL]
+    | succ d =>
+      have := ih d (by simpa using hd)
+      simp only [List.set_cons_succ, List.take_succ_cons, List.drop_succ_cons, prodL]
+      rw [this]; ring
+
+/-- the per-axis loop as successive function application (what `FieldZeroPadder.apply`, `RegriddingOperator.apply`,
+    `np.fft.fftshift` do: one axis after the other on the evolving array) -/
+def alongAxesFn (sh : List Nat) (d0 : Nat) (ops : List (Option (Coo K))) (x : Nat → K) : Nat → K :=
+  (ops.foldl (fun (st : (Nat → K) × List Nat × Nat) (M : Option (Coo K)) =>
+      match M with
+      | none => (st.1, st.2.1, st.2.2 + 1)
+      | some M =>
+        (apply (onAxis (prodL (st.2.1.take st.2.2)) (prodL (st.2.1.drop (st.2.2 + 1))) M) st.1,
+         st.2.1.set st.2.2 M.rows, st.2.2 + 1))
+    (x, sh, d0)).1
+
+/-- side condition of the loop: each 1-D operator is well-formed and its column count is the current axis length -/
+def alongOk : List Nat → Nat → List (Option (Coo K)) → Prop
+  | _, _, [] => True
+  | cur, d, none :: ops => alongOk cur (d + 1) ops
+  | cur, d, some M :: ops => M.wf = true ∧ d < cur.length ∧ M.cols = cur.getD d 0 ∧ alongOk (cur.set d M.rows) (d + 1) ops
+
+/-- **the composed COO operator of the per-axis loop acts like the successive 1-D operators** -/
+theorem alongAxes_apply (sh : List Nat) (d0 : Nat) (ops : List (Option (Coo K))) (hok : alongOk sh d0 ops)
+    (x : Nat → K) (r : Nat) (hr : r < (alongAxes sh d0 ops).rows) :
+    apply (alongAxes sh d0 ops) x r = alongAxesFn sh d0 ops x r := by
+  unfold alongAxes alongAxesFn
+  -- generalised invariant over the fold state
+  suffices hs : ∀ (ops : List (Option (Coo K))) (tot : Coo K) (f : Nat → K) (cur : List Nat) (d : Nat),
+      tot.wf = true → tot.rows = prodL cur → (∀ i, i < tot.rows → apply tot x i = f i) → alongOk cur d ops →
+      ∀ r, r < ((ops.foldl (fun (st : Coo K × List Nat × Nat) (M : Option (Coo K)) =>
+            let (tot, cur, d) := st
+            match M with
+            | none => (tot, cur, d + 1)
+            | some M => (comp (onAxis (prodL (cur.take d)) (prodL (cur.drop (d + 1))) M) tot, cur.set d M.rows, d + 1))
+            (tot, cur, d))).1.rows →
+        apply ((ops.foldl (fun (st : Coo K × List Nat × Nat) (M : Option (Coo K)) =>
+            let (tot, cur, d) := st
+            match M with
+            | none => (tot, cur, d + 1)
+            | some M => (comp (onAxis (prodL (cur.take d)) (prodL (cur.drop (d + 1))) M) tot, cur.set d M.rows, d + 1))
+            (tot, cur, d))).1 x r
+        = ((ops.foldl (fun (st : (Nat → K) × List Nat × Nat) (M : Option (Coo K)) =>
+            match M with
+            | none => (st.1, st.2.1, st.2.2 + 1)
+            | some M =>
+              (apply (onAxis (prodL (st.2.1.take st.2.2)) (prodL (st.2.1.drop (st.2.2 + 1))) M) st.1,
+               st.2.1.set st.2.2 M.rows, st.2.2 + 1))
+            (f, cur, d))).1 r by
+    exact hs ops (ident (prodL sh)) x sh d0 (ident_wf _) rfl (fun i hi => ident_apply _ x i hi) hok r hr
+  intro ops
+  induction ops with
+  | nil => intro tot f cur d _ _ hf _ r hr; exact hf r hr
+  | cons o ops ih =>
+    intro tot f cur d htw hrows hf hok r hr
+    rw [List.foldl_cons] at hr ⊢
+    rw [List.foldl_cons]
+    cases o with
+    | none => exact ih tot f cur (d + 1) htw hrows hf hok r hr
+    | some M =>
+      obtain ⟨hMw, hd, hcols, hrest⟩ := hok
+      have hO := onAxis_wf (prodL (cur.take d)) (prodL (cur.drop (d + 1))) M hMw
+      have hdim : tot.rows = (onAxis (prodL (cur.take d)) (prodL (cur.drop (d + 1))) M).cols := by
+        rw [hrows]; show prodL cur = prodL (cur.take d) * M.cols * prodL (cur.drop (d + 1))
+        rw [hcols, prodL_split cur d hd]
+      refine ih (comp (onAxis (prodL (cur.take d)) (prodL (cur.drop (d + 1))) M) tot)
+        (apply (onAxis (prodL (cur.take d)) (prodL (cur.drop (d + 1))) M) f) (cur.set d M.rows) (d + 1)
+        (comp_wf _ _ hO htw) ?_ ?_ hrest r hr
+      · show prodL (cur.take d) * M.rows * prodL (cur.drop (d + 1)) = prodL (cur.set d M.rows)
+        rw [prodL_set cur d M.rows hd]
+      · intro i _
+        rw [apply_comp _ _ hO htw hdim]
+        apply apply_congr_wf _ hO
+        intro c hc; exact hf c (by rw [hdim]; exact hc)
+
+end along
+end NiftyVerif
